@@ -8,7 +8,6 @@
   element types, no-ops).  PROVED (`…_partial`): the fixed-width integer layer shared by
   encoder and parser — every integer survives `write in w bytes two's complement big-endian →
   read back as intN` exactly, for all four widths and the whole range of each.
-  The container state machine is not yet proved against the specification.
 
   UBJSON PARSER REFINEMENT (namespace `SF.PropsUbjP.C06`), the property IN FULL for the grammar
   `SF.Ubjson.Syn.Item` (SF/Proofs/UbjItem.lean: every scalar marker, strings and high-precision
@@ -22,6 +21,7 @@ import SF.Ubjson.Enc
 import SF.Ubjson.Parse
 import SF.Ubjson.Cst
 import SF.Proofs.UbjParseTop
+import SF.Proofs.UbjBridgeTop
 namespace SF.Props.C06
 open SF SF.Ubjson
 
@@ -138,3 +138,40 @@ theorem vcost_linear (it : Item) : vcost it + 1 ≤ 3 * it.wire.length + 2 * fre
   SF.Props.UbjParse.vcost_linear it
 
 end SF.PropsUbjP.C06
+
+
+/-! ## the parser against the independently written reference decoder -/
+
+namespace SF.PropsUbjRef.C06
+open SF SF.Ubjson
+open SF.Ubjson.Parse (P parse events free)
+open SF.Ubjson.Wire (UItem)
+open SF.Ubjson.Bridge (toSyn)
+
+/-- the two UBJSON grammars of this development — `Wire.UItem` (written for the ENCODER theorems,
+with the reference decoder `Cst.decodeStream` proved to invert it) and `Syn.Item` (written for
+the PARSER theorems) — assign the same bytes and the same value to every item -/
+theorem ubj_grammar_bridge (i : UItem) :
+    (toSyn i).wire = i.wire ∧ (toSyn i).value = i.value ∧
+      (i.ok = true → (toSyn i).ok = true ∧ free (toSyn i) = 0) :=
+  SF.Props.UbjBridge.ubj_grammar_bridge i
+
+/-- C06 against the reference decoder: on every well-formed item (any length marker that fits,
+plain / counted / typed containers nested in one another, NO size bound) the parser accepts,
+ends idle, and the events it delivers form one contract-conforming document that builds the
+value the draft-12 reference decoder `Cst.decodeStream` (SF/Ubjson/Cst.lean, written from the
+specification text alone) reads from the same bytes -/
+theorem parser_agrees_with_reference (i : UItem) (h : i.ok = true) :
+    ∃ vt, parse {} i.wire = ({ evs := (toSyn i).events.reverse, valueType := vt }, none) ∧
+      build (toSyn i).events = some i.value ∧ WF1 (toSyn i).events = true ∧
+      Cst.decodeStream i.wire = .ok [i.value] :=
+  SF.Props.UbjBridge.parser_agrees_with_reference i h
+
+example : SF.Props.UbjBridge.exU.ok = true ∧
+    (parse {} SF.Props.UbjBridge.exU.wire).2 = none ∧
+    (match Cst.decodeStream SF.Props.UbjBridge.exU.wire, build (events (parse {} SF.Props.UbjBridge.exU.wire).1) with
+     | .ok [v], some v' => v == v'
+     | _, _ => false) = true := by
+  decide +kernel
+
+end SF.PropsUbjRef.C06
